@@ -709,6 +709,9 @@ class FunctionParser(BaseParser):
                     _ = _self
             if args and not _:
                 _, *args = args
+            elif not args and _ is None and self.reserve_name and self.reserve_name in kwargs:
+                # the reserved first parameter passed by keyword: f(self=inst, x=1)
+                _ = kwargs.pop(self.reserve_name)
         if parse_params:
             args, kwargs = self.parse_params(args, kwargs, context=context)
         if first_reserve:
